@@ -273,7 +273,47 @@ def r5_edits(rep, src):
                 rep.fail('C11.R5', fn.site, what, '; '.join(problems), where=fn.where)
             else:
                 rep.ok('C11.R5', fn.site, what, '→ %s' % got)
-        # replace of a missing value
+        # replace with a duplicated value in the list: only the first occurrence changes
+        if nvals >= 3:
+            heap, view, lst, nodes, vals = build_view(src, layout, space_sep)
+            it = H.Interp(heap)
+            fn = heap.module.method(CLS, 'replace')
+            # make the last value a duplicate of the first
+            toks = [heap.objs[x.name]['value'] for x in nodes]
+            vtoks = [t for t in toks if heap.objs[t.name]['__class__'] == KINDS['V']]
+            heap.objs[vtoks[-1].name]['text'] = H.Key('v1', 'v1')
+            vals = vals[:-1] + ['v1']
+            what = 'replace(v1, new) on [%s] with the last value equal to the first' % lay
+            n += 1
+            try:
+                it.call(H.Closure(fn.node, {}, view, fn.cls), [H.Key('v1', 'v1'), H.Key('new', 'new')])
+                got, kinds, problems = read_values(heap, lst)
+                want = ['new'] + vals[1:]
+                if got != want:
+                    problems.append('the list of values is %s, the reference model says %s (one call replaces one listed value)' % (got, want))
+                if problems:
+                    rep.fail('C11.R5', fn.site, what, '; '.join(problems), where=fn.where)
+                else:
+                    rep.ok('C11.R5', fn.site, what, '→ %s' % got)
+            except H.Raised as x:
+                rep.fail('C11.R5', fn.site, what, 'raises %s (line %d)' % (x.exc, x.lineno), where=fn.where)
+        # replace of a missing value -- on a fresh view and on one that has been edited before
+        for edited in (False, True):
+            heap, view, lst, nodes, vals = build_view(src, layout, space_sep)
+            it = H.Interp(heap)
+            fn = heap.module.method(CLS, 'replace')
+            heap.objs[view.name]['_changed'] = edited
+            heap.mark()
+            before = heap.snapshot()
+            label = 'replace(missing) on [%s]%s' % (lay, ' after an earlier edit' if edited else '')
+            try:
+                it.call(H.Closure(fn.node, {}, view, fn.cls), [H.Key('zz', 'zz'), H.Key('new', 'new')])
+                rep.fail('C11.R5', fn.site, label, 'replacing a value that is not in the list succeeds', where=fn.where)
+            except H.Raised as x:
+                if x.exc == 'ValueError' and heap.snapshot() == before:
+                    rep.ok('C11.R5', fn.site, label, 'ValueError, view unchanged', nontrivial=False)
+                else:
+                    rep.fail('C11.R5', fn.site, label, 'raises %s%s' % (x.exc, '' if heap.snapshot() == before else ' after modifying the view'), where=fn.where)
         heap, view, lst, nodes, vals = build_view(src, layout, space_sep)
         it = H.Interp(heap)
         fn = heap.module.method(CLS, 'replace')
@@ -377,24 +417,78 @@ def r2_r3_tokenizers(rep, src):
                      detail={'witness': w}, where=f.where)
         else:
             rep.ok('C11.R3', f.site, 'the groups tile each match', '%d groups partition every match' % ng)
-        # groups are emitted in order, each at most once
-        unpack = [s for s in ast.walk(f.node) if isinstance(s, ast.Assign) and isinstance(s.targets[0], ast.Tuple) and norm(s.value).endswith('.groups()')]
-        if len(unpack) != 1 or len(unpack[0].targets[0].elts) != ng:
-            raise AnalysisError('%s: groups() unpacking not found' % f.site)
-        names = [norm(x) for x in unpack[0].targets[0].elts]
-        ys = sorted([y for y in ast.walk(f.node) if isinstance(y, ast.Yield)], key=lambda y: y.lineno)
-        emitted = []
-        for y in ys:
-            v = y.value
-            used = [x.id for x in ast.walk(v) if isinstance(x, ast.Name) and x.id in names]
-            if used:
-                emitted.append(used[0])
-            elif isinstance(v, ast.Call) and norm(v.func) == 'Deb822CommaToken':
-                emitted.append('comma' if 'comma' in names else '?')
-        if emitted == names:
-            rep.ok('C11.R3', f.site, 'groups are emitted in order', ' '.join(names))
+        # groups are emitted in order, each exactly when it is non-empty: the paths of the loop body over the matches,
+        # locals substituted away, yield token constructors whose text argument is a group of the match
+        from .. import paths as P
+        loops = [s_ for s_ in f.node.body if isinstance(s_, ast.For) and isinstance(s_.iter, ast.Call) and isinstance(s_.iter.func, ast.Attribute)
+                 and s_.iter.func.attr == 'finditer' and isinstance(s_.target, ast.Name)]
+        if len(loops) != 1:
+            raise AnalysisError('%s: loop over finditer() not found' % f.site)
+        mv = loops[0].target.id
+        gindex = dict(tree.state.groupdict)
+        consts_ = const_token_texts(src)
+
+        def group_of(e):
+            """group number denoted by an expression, through text-preserving wrappers"""
+            while isinstance(e, ast.Call) and norm(e.func) in ('sys.intern', 'str', 'intern') and len(e.args) == 1:
+                e = e.args[0]
+            if isinstance(e, ast.Subscript) and norm(e.value) == '%s.groups()' % mv and isinstance(e.slice, ast.Constant):
+                return e.slice.value + 1
+            if isinstance(e, ast.Call) and norm(e.func) == '%s.group' % mv and len(e.args) == 1 and isinstance(e.args[0], ast.Constant):
+                k = e.args[0].value
+                return gindex.get(k) if isinstance(k, str) else k
+            if isinstance(e, ast.Subscript) and norm(e.value) == mv and isinstance(e.slice, ast.Constant):
+                k = e.slice.value
+                return gindex.get(k) if isinstance(k, str) else k
+            return None
+        ps = P.Enumerator(P.Folder()).run(loops[0].body, [P.Path()])
+        problems = []
+        covered = set()
+        for p_ in ps:
+            falsy = {group_of(t) for t, pol in p_.conds if not pol and group_of(t) is not None}
+            truthy = {group_of(t) for t, pol in p_.conds if pol and group_of(t) is not None}
+            seq = []
+            for ev in p_.events:
+                if ev[0] == 'effect' and isinstance(ev[1], ast.Expr) and isinstance(ev[1].value, ast.Yield):
+                    v = ev[1].value.value
+                    if not isinstance(v, ast.Call):
+                        problems.append('yields %s' % norm(v)[:40])
+                        continue
+                    if v.args:
+                        g = group_of(v.args[0])
+                        if g is None:
+                            problems.append('a token is built from %s, which is not a group of the match' % norm(v.args[0])[:50])
+                            continue
+                        seq.append(g)
+                    else:
+                        # constant token: stands for the group whose truth guards it and whose language is that constant
+                        text = consts_.get(norm(v.func))
+                        cands = [g for g in truthy if g not in seq]
+                        g = None
+                        for c in sorted(cands):
+                            only = rx.regex_lang(rx.literal(text), 0, 'fullmatch', alpha=alpha) if text is not None else None
+                            part = rx.has_group(alpha, markers, c)
+                            if only is not None and Rm.intersect(part).minus(rx.group_content(alpha, markers, c, only)).is_empty() \
+                                    and Rm.intersect(part).minus(rx.group_content(alpha, markers, c, rx.regex_lang('.+', 16, 'fullmatch', alpha=alpha))).is_empty():
+                                g = c
+                                break
+                        if g is None:
+                            problems.append('the constant token %s does not stand for a group whose text is always %r' % (norm(v.func), text))
+                            continue
+                        seq.append(g)
+            if seq != sorted(set(seq)):
+                problems.append('groups are emitted in the order %s' % seq)
+            missing = [g for g in groups if g not in seq and g not in falsy]
+            if missing:
+                problems.append('group(s) %s may be non-empty on a path that does not emit them' % missing)
+            covered |= set(seq)
+        if not problems and covered != set(groups):
+            problems.append('groups %s are never emitted' % sorted(set(groups) - covered))
+        if not problems:
+            rep.ok('C11.R3', f.site, 'groups are emitted in order', '%d paths: every non-empty group is emitted once, in group order' % len(ps))
         else:
-            rep.fail('C11.R3', f.site, 'groups are emitted in order', 'the tokenizer yields %s for the groups %s: text is dropped or re-ordered' % (emitted, names), where=f.where)
+            rep.fail('C11.R3', f.site, 'groups are emitted in order', 'the tokenizer does not emit every group of a match once, in order: %s: text is dropped or re-ordered'
+                     % '; '.join(sorted(set(problems))[:3]), where=f.where)
     # separator never inside a word
     rw = src.regex(TK, '_RE_WHITESPACE_SEPARATED_WORD_LIST')
     rc = src.regex(TK, '_RE_COMMA_SEPARATED_WORD_LIST')
@@ -512,6 +606,21 @@ def r4_writeback(rep, src):
         rep.ok('C11.R4', f.site, 'unformatted write-back uses the token texts verbatim', "field_name + ':' + ''.join(token texts)", nontrivial=False)
     else:
         rep.fail('C11.R4', f.site, 'unformatted write-back uses the token texts verbatim', 'the preserved-format write-back does not concatenate the token texts', where=f.where)
+
+
+def const_token_texts(src):
+    """token classes whose constructor passes a constant text to the base class"""
+    m = src.mod(TK)
+    out = {}
+    for cname in m.classes:
+        init = m.funcs.get(cname + '.__init__')
+        if init is None or len(init.params()) != 1:
+            continue
+        for c in ast.walk(init.node):
+            if isinstance(c, ast.Call) and isinstance(c.func, ast.Attribute) and c.func.attr == '__init__' and len(c.args) == 1 \
+                    and isinstance(c.args[0], ast.Constant) and isinstance(c.args[0].value, str):
+                out[cname] = c.args[0].value
+    return out
 
 
 def check(src, rep, tier):
